@@ -20,6 +20,7 @@ import (
 func init() { register("C20", checkC20) }
 
 type c20Req struct {
+	proto   string // "" = "tcp"
 	maxTTL  int
 	dist    int
 	method  string
@@ -74,6 +75,13 @@ func checkC20() fw.Check {
 					}
 				}
 			}
+			// a spelling variant of the protocol ("TCP"): whether it is accepted is C19's business; IF it is accepted, the
+			// method policy applies unchanged (end-to-end probes use SYN, ...)
+			for _, m := range []string{"sack", "prefer_sack", "syn"} {
+				for _, cp := range []string{"sack-ok", "no-sackperm", "closed"} {
+					reqs = append(reqs, c20Req{proto: "TCP", method: m, cap: cp, fault: "none", e2e: 2, queries: 1})
+				}
+			}
 			var cases []fw.Case
 			for i, rq := range reqs {
 				rq := rq
@@ -93,7 +101,11 @@ var errC20 = errors.New("verif-injected non-capability failure")
 func runC20(c *fw.Ctx, id string, rq c20Req) {
 	target := netip.AddrFrom4([4]byte{10, 204, byte(120 + c.Worker), 9})
 	port := uint16(21000 + c.Worker)
-	params := traceroute.TracerouteParams{Hostname: target.String(), Port: int(port), Protocol: "tcp", MinTTL: 1, MaxTTL: rq.maxTTL, Delay: 5,
+	protoStr := "tcp"
+	if rq.proto != "" {
+		protoStr = rq.proto
+	}
+	params := traceroute.TracerouteParams{Hostname: target.String(), Port: int(port), Protocol: protoStr, MinTTL: 1, MaxTTL: rq.maxTTL, Delay: 5,
 		Timeout: 300 * time.Millisecond, TCPMethod: traceroute.TCPMethod(rq.method), TracerouteQueries: rq.queries, E2eQueries: rq.e2e}
 	needPeer := rq.cap != "closed"
 	env, err := newReqEnv(c, params, target, port, needPeer)
@@ -210,6 +222,9 @@ func runC20(c *fw.Ctx, id string, rq c20Req) {
 	}
 	if out != nil && rerr != nil {
 		viol("result-and-error", "both a result and an error")
+	}
+	if rq.proto != "" && rerr != nil && len(order) == 0 {
+		return // the spelling was rejected before anything was sent: fine
 	}
 	// end-to-end probes use SYN whatever the method
 	if e2eOther > 0 {
